@@ -899,6 +899,8 @@ class Engine:
             if isinstance(node.func, ast.Attribute) and node.func.attr == "format":
                 return self.static_eval(rel, node.func.value).format(*args, **kwargs)
             raise ValueError("call " + fn)
+        if isinstance(node, ast.UnaryOp) and isinstance(node.op, ast.USub):
+            return -self.static_eval(rel, node.operand)
         if isinstance(node, ast.BinOp) and isinstance(node.op, ast.Add):
             return self.static_eval(rel, node.left) + self.static_eval(rel, node.right)
         raise ValueError(ast.dump(node))
